@@ -1276,6 +1276,21 @@ class Interp:  # pylint: disable=too-many-public-methods
             return k(("proj", call, 2, "LComp"), st)
         raise Unsupported(f"graph.{name}")
 
+    @staticmethod
+    def is_collection(v) -> bool:
+        if isinstance(v, Ref):
+            return v.kind in ("set", "list")
+        if not (isinstance(v, tuple) and v and isinstance(v[0], str)):
+            return False
+        if v[0] in ("dslot", "dictkeys"):
+            return True
+        if v[0] in ("builtin", "prim", "meth", "module", "modattr", "pmeth", "clsattr"):
+            return False
+        try:
+            return ty(v).startswith("L")
+        except Unsupported:
+            return False
+
     def as_list(self, v, st: State):
         """The symbolic collection behind a value (reference, symbolic list, constant)."""
         if isinstance(v, tuple) and v and v[0] == "dslot" and len(v) == 3:
@@ -1578,6 +1593,14 @@ class Interp:  # pylint: disable=too-many-public-methods
             if isinstance(a, Py) and isinstance(b, Py):
                 return Py({ast.Lt: a.v < b.v, ast.LtE: a.v <= b.v, ast.Gt: a.v > b.v, ast.GtE: a.v >= b.v}[type(op)])
             sym = {ast.Lt: "<", ast.LtE: "<=", ast.Gt: ">", ast.GtE: ">="}[type(op)]
+            if self.is_collection(a) and self.is_collection(b):
+                # set comparison: `a <= b` is `a.issubset(b)`, `a < b` the proper subset
+                la, lb = self.as_list(a, st), self.as_list(b, st)
+                if sym in (">", ">="):
+                    la, lb = lb, la
+                if sym in ("<=", ">="):
+                    return Subset(la, lb)
+                return And(Subset(la, lb), Not(Subset(lb, la)))
             return self.natcmp(sym, a, b)
         raise Unsupported(f"comparison {type(op).__name__}")
 
